@@ -317,6 +317,29 @@ def _mono_case(rng, multi):
                 fr[rng.randrange(len(fr))] = rng.choice(out)
     c['fi'] = rng.randrange(nframes)
     c['api'] = 'get_frames' if (multi and rng.random() < 0.4) else 'get_frame'
+    if multi and r2 >= 0.36 and rng.random() < 0.3:
+        # one stage per-frame (different for every frame), the next stage shared (or the reverse),
+        # several frames fetched in ONE call: a transform built for one frame must not be reused
+        for lv in [c['shared']] + c['perframe']:
+            lv['rwvm'] = lv['slope'] = lv['icpt'] = lv['win'] = None
+        c['modlut'] = c['voiluts'] = None
+        ms = rng.sample([1, 2, 3, 4, -1, -2], nframes)
+        bs = rng.sample([0, -1024, 10, -3, 7, 100], nframes)
+        wins = [_windows(rng) for _ in range(nframes)]
+        if rng.random() < 0.6:
+            for lv, m, b in zip(c['perframe'], ms, bs):
+                lv['slope'], lv['icpt'] = str(m), str(b)
+            c['shared']['win'] = wins[0]
+        else:
+            c['shared']['slope'], c['shared']['icpt'] = str(ms[0]), str(bs[0])
+            for lv, w in zip(c['perframe'], wins):
+                w['expl'] = None
+                lv['win'] = w
+        c['vsel'] = 0
+        c['flags'] = {'rwvm': False, 'mod': rng.choice([None, True]), 'voi': rng.choice([None, True]),
+                      'pres': rng.random() < 0.5, 'pal': None, 'icc': None}
+        c['dtype'] = 'float64'
+        c['api'] = rng.choice(['get_frames', 'get_frames', 'get_frame'])
     return c
 
 
